@@ -687,48 +687,140 @@ func isTopLoad(v ssa.Value) bool {
 	return len(l.T) == 1 && l.C == -1
 }
 
+// stackJSTemplate: the js lexer keeps the brace levels of open template literals in its []int field. A pop must
+// only happen where the stack is known to be non-empty: under a test of its length, after a push on the same
+// path, or — lifted to every call site of the popping function — under the same conditions there.
 func stackJSTemplate(r *core.Run) {
-	fn := r.Prog.SSAFunc("js", "Lexer", "consumeTemplateToken")
-	nx := r.Prog.SSAFunc("js", "Lexer", "Next")
-	if fn == nil || nx == nil {
-		r.BrokenAnchor("js.Lexer.consumeTemplateToken / Next")
+	pk := r.Prog.Pkg("js")
+	if pk == nil {
+		r.BrokenAnchor("js package")
 		return
 	}
-	// each call of consumeTemplateToken is preceded by an append, or dominated by len(templateLevels) != 0
-	n := 0
-	for _, c := range callsNamed(nx, "consumeTemplateToken") {
-		n++
-		ok := false
-		for _, op := range stackOps(nx, "js.Lexer", "templateLevels") {
-			if op.kind == "push" && instrBefore(op.in, c) && op.in.Block() == c.Block() {
-				ok = true
-			}
-		}
-		for _, f := range blockFacts(c.Block()) {
-			if f.NE && len(f.L.T) == 1 {
-				for a := range f.L.T {
-					if strings.HasSuffix(a, ".templateLevels)") {
-						ok = true
+	field := ""
+	if tn, _ := pk.Types.Scope().Lookup("Lexer").(*types.TypeName); tn != nil {
+		if st, _ := tn.Type().Underlying().(*types.Struct); st != nil {
+			for i := 0; i < st.NumFields(); i++ {
+				if sl, ok := st.Field(i).Type().Underlying().(*types.Slice); ok {
+					if b, isB := sl.Elem().Underlying().(*types.Basic); isB && b.Kind() == types.Int {
+						if field != "" {
+							field = "?"
+						} else {
+							field = st.Field(i).Name()
+						}
 					}
 				}
 			}
 		}
-		r.Check(ok, fmt.Sprintf("js template token #%d needs a non-empty templateLevels", n), c.Pos(), "", "consumeTemplateToken pops templateLevels but this call site has neither pushed a level nor tested len(templateLevels) != 0")
 	}
-	r.Floor("consumeTemplateToken call sites", n, 2)
-	// at most one pop per path
-	twice := false
-	pathFlow(fn, pstate{}, func(s pstate, in ssa.Instruction) pstate {
-		for _, o := range stackOps(fn, "js.Lexer", "templateLevels") {
-			if o.in == in && o.kind == "pop" {
-				s.v[0] = clamp(s.v[0] + 1)
+	if field == "" || field == "?" {
+		r.BrokenAnchor("js.Lexer field of type []int (template brace levels)")
+		return
+	}
+	r.Note("R-STACK(js): template brace levels are kept in js.Lexer.%s", field)
+	type fnOps struct {
+		fn  *ssa.Function
+		ops []stackOp
+	}
+	var all []fnOps
+	opsOf := map[*ssa.Function][]stackOp{}
+	for _, fn := range allModuleFuncs(r) {
+		if core.RelPkg(fnPkg(fn)) != "js" {
+			continue
+		}
+		if ops := stackOps(fn, "js.Lexer", field); len(ops) > 0 {
+			all = append(all, fnOps{fn, ops})
+			opsOf[fn] = ops
+		}
+	}
+	nonEmptyAtom := func(a condAtom, _ *ssa.Function) bool {
+		for _, f := range factsOfAtom(a) {
+			if len(f.L.T) != 1 {
+				continue
+			}
+			for atom, c := range f.L.T {
+				if !strings.HasSuffix(atom, "."+field+")") || !strings.HasPrefix(atom, "len(") {
+					continue
+				}
+				if f.NE && f.L.C == 0 { // len != 0
+					return true
+				}
+				if !f.NE && c == 1 && f.L.C <= -1 { // len - k >= 0, k >= 1
+					return true
+				}
 			}
 		}
-		return s
-	}, func(s pstate, ret *ssa.Return) {
-		if s.v[0] > 1 {
-			twice = true
+		return false
+	}
+	var nonEmptyAt func(at ssa.Instruction, depth int) bool
+	nonEmptyAt = func(at ssa.Instruction, depth int) bool {
+		if depth > 3 {
+			return false
 		}
-	})
-	r.Check(!twice, "consumeTemplateToken pops at most once", fn.Pos(), "", "a path pops templateLevels twice")
+		fn := at.Parent()
+		for _, a := range guardsAt(at.Block()) {
+			if nonEmptyAtom(a, fn) {
+				return true
+			}
+		}
+		for _, op := range opsOf[fn] {
+			if op.kind == "push" && instrBefore(op.in, at) {
+				return true
+			}
+		}
+		if fn.Object() != nil && fn.Object().Exported() {
+			return false
+		}
+		sites := callSitesOf(r, fn)
+		if len(sites) == 0 {
+			return false
+		}
+		for _, c := range sites {
+			if !nonEmptyAt(c, depth+1) {
+				return false
+			}
+		}
+		return true
+	}
+	npop := 0
+	for _, fo := range all {
+		pops := 0
+		for _, op := range fo.ops {
+			switch op.kind {
+			case "pop":
+				npop++
+				pops++
+				r.Check(nonEmptyAt(op.in, 0), fmt.Sprintf("js template level pop #%d needs a non-empty stack", npop), op.in.Pos(), "", "the template level stack is popped where it is not known to be non-empty (no length test, no push on the path, and not so at every call site of this function): a `}` or the end of a template outside any template literal would slice below zero")
+			case "push":
+			default:
+				if st, ok := op.in.(*ssa.Store); ok {
+					if fa, isFA := st.Addr.(*ssa.FieldAddr); isFA {
+						if _, fresh := fa.X.(*ssa.Alloc); fresh {
+							continue // initialisation of a new lexer
+						}
+					}
+				}
+				r.Fail("js template level stack rewritten", op.in.Pos(), "the template level stack is assigned something other than append/pop")
+			}
+		}
+		if pops == 0 {
+			continue
+		}
+		// at most one pop per path
+		twice := false
+		fn := fo.fn
+		pathFlow(fn, pstate{}, func(s pstate, in ssa.Instruction) pstate {
+			for _, o := range fo.ops {
+				if o.in == in && o.kind == "pop" {
+					s.v[0] = clamp(s.v[0] + 1)
+				}
+			}
+			return s
+		}, func(s pstate, ret *ssa.Return) {
+			if s.v[0] > 1 {
+				twice = true
+			}
+		})
+		r.Check(!twice, fnLabel(fn)+" pops the template level stack at most once", fn.Pos(), "", "a path pops the template level stack twice")
+	}
+	r.Floor("js template level pops", npop, 1)
 }
